@@ -230,6 +230,12 @@ func (e *Engine) registerStrings() {
 		r := p.asciiRune(a[0], site)
 		return IntV{T: smt.Ite(smt.And(smt.Ge(r, smt.Int('A')), smt.Le(r, smt.Int('Z'))), smt.Add(r, smt.Int(32)), r), Small: true}
 	}
+	// cases.Title(language.Und, cases.NoLower).String on an ASCII alphanumeric
+	// piece: upper-case the first LETTER (leading digits are skipped), keep the rest
+	I["(golang.org/x/text/cases.Caser).String"] = func(p *Path, a []Value, site ssa.Instruction) Value {
+		s := a[1].(StrV)
+		return p.titleFirstLetter(s, site)
+	}
 	I["bytes.Equal"] = func(p *Path, a []Value, site ssa.Instruction) Value {
 		return BoolV{T: p.strEq(p.bytesAsStr(a[0]), p.bytesAsStr(a[1]))}
 	}
@@ -404,4 +410,49 @@ func (p *Path) split(s StrV, sep []byte, site ssa.Instruction) []StrV {
 	}
 	out = append(out, bytesToStr(bs[run:n]))
 	return out
+}
+
+// TitleFirstLetterModel is the concrete form of the cases.Title(Und,NoLower)
+// model (used by the differential self-test against the real function).
+func TitleFirstLetterModel(s string) string {
+	bs := []byte(s)
+	for i, c := range bs {
+		isL := (c >= 'a' && c <= 'z') || (c >= 'A' && c <= 'Z')
+		isD := c >= '0' && c <= '9'
+		if isL {
+			if c >= 'a' && c <= 'z' {
+				bs[i] = c - 32
+			}
+			break
+		}
+		if !isD {
+			break
+		}
+	}
+	return string(bs)
+}
+
+func (p *Path) titleFirstLetter(s StrV, site ssa.Instruction) Value {
+	if s.IsConst() {
+		return constStr(TitleFirstLetterModel(s.ConstString()))
+	}
+	bs, n := p.concretizeLen(s, site)
+	out := make([]*smt.Term, n)
+	// pending: no letter seen yet and only digits so far
+	pending := smt.True
+	for i := 0; i < n; i++ {
+		b := bs[i]
+		if !b.IsInt() {
+			isAlnum := smt.Or(
+				smt.And(smt.Ge(b, smt.Int('a')), smt.Le(b, smt.Int('z'))),
+				smt.And(smt.Ge(b, smt.Int('A')), smt.Le(b, smt.Int('Z'))),
+				smt.And(smt.Ge(b, smt.Int('0')), smt.Le(b, smt.Int('9'))))
+			p.obligationAssume(isAlnum, site, "cases.Title model applied to a non-alphanumeric byte")
+		}
+		isLower := smt.And(smt.Ge(b, smt.Int('a')), smt.Le(b, smt.Int('z')))
+		isDigit := smt.And(smt.Ge(b, smt.Int('0')), smt.Le(b, smt.Int('9')))
+		out[i] = smt.Ite(smt.And(pending, isLower), smt.Sub(b, smt.Int(32)), b)
+		pending = smt.And(pending, isDigit)
+	}
+	return bytesToStr(out)
 }
